@@ -116,6 +116,8 @@ def main():
         elif a[i] == "--patch": opt["patch"] = os.path.abspath(a[i + 1]); i += 2
         elif a[i] == "--id": opt["id"] = a[i + 1]; i += 2
         elif a[i] == "--expect": opt["expect"] = a[i + 1].split(","); i += 2
+        elif a[i] == "--seeds":
+            opt["seeds"] = a[i + 1].split(",") if i + 1 < len(a) and not a[i + 1].startswith("--") else ["all"]; i += 2 if opt["seeds"] != ["all"] else 1
         elif a[i] == "--cleanup":
             for d in sorted(os.listdir(ROOT)) if os.path.exists(ROOT) else []:
                 sh(f"git -C {REPO} worktree remove --force {ROOT}/{d}/repo")
@@ -123,7 +125,14 @@ def main():
             sh(f"git -C {REPO} worktree prune")
             print("cleaned"); return
         else: i += 1
-    if opt["patch"]:
+    if opt.get("seeds"):
+        muts = []
+        for d in sorted(os.listdir(f"{VERIF}/seeded")):
+            if opt["seeds"] != ["all"] and d not in opt["seeds"]:
+                continue
+            meta = json.load(open(f"{VERIF}/seeded/{d}/meta.json"))
+            muts.append({"id": "S-" + d, "patch": f"{VERIF}/seeded/{d}/patch.diff", "expect": [meta.get("property", d[:3])], "note": meta.get("summary", "")[:160]})
+    elif opt["patch"]:
         muts = [{"id": opt["id"] or "PATCH", "patch": opt["patch"], "expect": opt["expect"] or [], "note": os.path.basename(opt["patch"])}]
     else:
         muts = json.load(open(f"{VERIF}/tools/mutants.json"))
